@@ -932,6 +932,16 @@ def check():
     except KeyError as exn:
         o.inconc(str(exn)[:160])
         app_bad = []
+    # the checker accepts any number as a status; whether it is one is decided during evaluation by HttpStatus::try_from, whose
+    # Err becomes a located error - for *every* u64, so it must never panic (Kani kernel shared with C03)
+    try:
+        import kanirun
+        from vcommon import src_ref
+        o.functions.append(src_ref("oal-syntax/src/atom.rs", "fn try_from(v: u64)"))
+        o.bounds["HttpStatus::try_from (Kani)"] = "every u64"
+        kanirun.decide(o, "kern", ["h_kernels::c03_http_status_try_from"], lambda h: "src/h_kernels.rs", timeout=600, findings=Findings())
+    except Exception as exn:
+        o.inconc("Kani kernel could not run: %s" % str(exn)[:120])
     emitter_lemmas(o, M, MO, app_bad)
     o.samples = [{"site": q["name"], "verdict": q["verdict"], "models": q.get("models")} for q in o.queries[:30]]
     return o.finish()
@@ -948,6 +958,11 @@ MUST_NOT_CRASH = {
     "concat-of-root-and-root-as-a-left-operand": "let root = /;\nlet prefix = concat root /;\nlet mount p = concat prefix p;\nres (mount /items) on get -> <{}>;\nres (mount /items/{ 'id int }) on get -> <{}>;\n",
     "concat-with-trailing-and-leading-separators": "let a = concat (/a/) (/);\nlet b = concat a (/b/);\nlet c = concat (concat b /) (/c);\nres c on get -> <{}>;\n",
     "recursive-array-of-relations": "let r = /x on get -> <[r]>;\nres r;\n",
+    # numbers that are no HTTP status, of every width, written in place and passed through a parameter
+    "status-numbers-of-every-width": "let problem s = <status=s, { 'detail str }>;\nres /a on get -> <status=0, {}>;\nres /b on get -> problem 70000;\n",
+    "status-number-beyond-16-bits": "res / on get -> <status=65536, {}>;\n",
+    "status-number-beyond-32-bits": "let problem s = <status=s, {}>;\nres / on get -> problem 4294967496;\n",
+    "status-number-at-the-top-of-64-bits": "res / on get -> <status=18446744073709551615, {}>;\n",
 }
 
 
@@ -1177,6 +1192,9 @@ def emitter_lemmas(o, M, MO, extra_bad=()):
 
 
 def replay(path):
+    if "h_kernels" in os.path.basename(os.path.normpath(path)):
+        import kanirun
+        return kanirun.replay_saved(path)
     cli = build_cli()
     files = {}
     for n in os.listdir(path):
